@@ -96,7 +96,7 @@ def codecOp (kind : String) (text : Bytes) : String :=
   | "blk" => render (blockFromText H text) (fun p => dBlock p.1 p.2) (fun p => blockToText H p.1 p.2) text
   | _ => "bad-op"
 
-/-- go-wire's own outcome is not modelled: a non-empty message never panics -/
+/-- go-wire's own outcome is not modelled; the reactors' decodeMessage rejects the empty message -/
 def msgOp (bz : Bytes) : String :=
   match (decodeMessage (fun _ => (⟨0, .err .eof⟩ : Res Unit)) bz).out with
   | .panic => "panic"
